@@ -72,7 +72,7 @@ for d in sorted(glob.glob(f'{V}/benign/*/*.diff')):
         continue
     jobs.append((name, d, {}))
 out = {}
-with ThreadPoolExecutor(4) as ex:
+with ThreadPoolExecutor(8) as ex:
     for (name, res, note), job in zip(ex.map(lambda j: run_change(*j), jobs), jobs):
         exp = job[2]
         if res is None:
